@@ -14,9 +14,10 @@ from mc.chartgen import build_api, Tree
 from mc.refmodel import Model
 
 from sismic.interpreter import Interpreter
+from sismic.model import Event
 from sismic.clock import SynchronizedClock
 
-DEPTH = {'quick': 9, 'thorough': 60}
+DEPTH = {'quick': 8, 'thorough': 60}
 CAP = 4
 
 
@@ -56,13 +57,13 @@ def chart_seq():
     T = [
         tr(0, 'a', 'b', tguard=('after', 2), action="P('t', time)"),
         tr(1, 'a', None, event='x', action="P('t', time)"),
-        tr(2, 'a', None, event='adv', action="ADV(2); P('t', time)", adv=2),
+        tr(2, 'a', None, event='adv', action="ADV(2); send('late', delay=1); P('t', time)", adv=2, sends=[('late', 1)]),
         tr(3, 'b', 'a', tguard=('idle', 3), action="P('t', time)"),
         tr(4, 'b1', 'b2', event='x', action="P('t', time)",
            inv=["C('inv4', after(2), after(0), time)"], post=["C('post4', after(3), time)"]),
         tr(5, 'b1', 'b2', tguard=('after', 3), action="ADV(1); P('t', time)", adv=1),
         tr(6, 'b2', 'b2', event='x', tguard=('idle', 2), action="P('t', time)"),
-        tr(7, 'b', None, event='adv', action="ADV(1); P('t', time)", adv=1),
+        tr(7, 'b', None, event='adv', action="ADV(1); send('late', delay=2); P('t', time)", adv=1, sends=[('late', 2)]),
         tr(8, 'b2', None, event='y', tguard=('after', 1), action="P('t', time)"),
         # a nested state targeting its own ancestor, and a compound state targeting its active descendant:
         # the re-entered states must restart their timers although they were active before the step
@@ -84,7 +85,8 @@ def chart_orth():
     ]
     T = [
         tr(0, 'p1', 'p2', tguard=('after', 2), action="P('t', time)"),
-        tr(1, 'p2', 'p1', tguard=('idle', 1), event='x', action="ADV(1); P('t', time)", adv=1),
+        tr(1, 'p2', 'p1', tguard=('idle', 1), event='x', action="ADV(1); send('late', delay=1); P('t', time)", adv=1,
+           sends=[('late', 1)]),
         tr(2, 'q1', 'q2', event='x', action="P('t', time)"),
         tr(3, 'q2', 'q1', tguard=('after', 3), action="P('t', time)"),
         tr(4, 'q2', None, event='x', tguard=('idle', 2), action="P('t', time)"),
@@ -97,8 +99,10 @@ def chart_orth():
 CHARTS = {'seq': chart_seq, 'orth': chart_orth}
 # ('stepL', d): execute_once while a listener moves the clock by d when 'step started' is emitted,
 # i.e. after the time was sampled and before any guard is evaluated
+# ('qd', name, d): an external event queued with a delay (its due time is relative to the frozen time; queueing
+# must not move Interpreter.time)
 OPS = [('clock', 1), ('clock', 2), ('clock', 3), ('q', 'x'), ('q', 'y'), ('q', 'z'), ('q', 'adv'), ('step',),
-       ('stepL', 2), ('stepL', 3)]
+       ('stepL', 2), ('stepL', 3), ('qd', 'x', 2), ('qd', 'y', 1)]
 
 
 class Ref:
@@ -111,8 +115,21 @@ class Ref:
         self.conf = set()
         self.entry = {}
         self.idle = {}
-        self.queue = []
+        self.iq = []        # internal events: (due, seq, name)
+        self.eq = []        # external events
+        self.seq = 0
         self.started = False
+
+    def put(self, q, due, name):
+        self.seq += 1
+        q.append((due, self.seq, name))
+        q.sort()
+
+    def pending(self, t):
+        for q in (self.iq, self.eq):
+            if q and q[0][0] <= t:
+                return q
+        return None
 
     def truth(self, tg, s, now):
         kind, d = tg
@@ -136,7 +153,8 @@ class Ref:
             self.enter(sorted(self.m.initial_conf(), key=lambda s: self.T.depth(s)))
             exp['init'] = True
             return exp
-        pending = self.queue[0] if self.queue else None
+        pq = self.pending(t)
+        pending = pq[0][2] if pq else None
         val = set()
         for tid, x in enumerate(self.trans):
             if x['source'] in self.conf and x.get('tguard'):
@@ -150,7 +168,7 @@ class Ref:
             exp['none'] = True
             return exp
         if pending is not None and not (fired and evless):
-            exp['consumed'] = self.queue.pop(0)
+            exp['consumed'] = pq.pop(0)[2]
         for tid in self.m.order(fired):
             x = self.trans[tid]
             r = self.m.predict_transition(self.conf, {}, tid)
@@ -160,6 +178,8 @@ class Ref:
                 self.idle.pop(s, None)
             if x.get('adv'):
                 self.clock += x['adv']
+            for name, d in x.get('sends', []):
+                self.put(self.iq, t + d, name)      # relative to the frozen time, not to the moved clock
             if x.get('target') is None:
                 # internal transition: the source stays active, keeps its entry time, idle is reset
                 self.idle[x['source']] = t
@@ -177,7 +197,9 @@ class Ref:
     def canon(self):
         ages = tuple(sorted((s, min(self.now - self.entry[s], CAP), min(self.now - self.idle[s], CAP))
                             for s in self.conf))
-        return (ages, min(self.clock - self.now, CAP), tuple(self.queue))
+        def q(lst):
+            return tuple((max(due - self.now, 0), name) for due, _, name in lst)
+        return (ages, min(self.clock - self.now, CAP), q(self.iq), q(self.eq))
 
 
 class Driver:
@@ -217,9 +239,16 @@ class Driver:
                 errs.append('Interpreter.time changed from %s to %s without execute_once' % (before, it.time))
             if it.clock.time != ref.clock:
                 errs.append('clock shows %s, expected %s' % (it.clock.time, ref.clock))
-        elif op[0] == 'q':
-            ref.queue.append(op[1])
-            it.queue(op[1])
+        elif op[0] in ('q', 'qd'):
+            before = it.time
+            if op[0] == 'q':
+                ref.put(ref.eq, ref.now, op[1])
+                it.queue(op[1])
+            else:
+                ref.put(ref.eq, ref.now + op[2], op[1])
+                it.queue(Event(op[1], delay=op[2]))
+            if it.time != before:
+                errs.append('Interpreter.time changed from %s to %s by queue(), without execute_once' % (before, it.time))
         else:
             probes.reset()
             probes.CVAL['fail_at'] = None
@@ -310,7 +339,7 @@ def expand(task):
         return res
     for op in OPS:
         it, ref, meta, sync = d.build(hist)
-        if op[0] == 'q' and len(ref.queue) >= 2:
+        if op[0] in ('q', 'qd') and (len(ref.eq) >= 2 or (op[1] == 'adv' and len(ref.iq) >= 2)):
             continue
         if op[0] == 'clock' and ref.clock - ref.now >= CAP:
             continue
@@ -356,8 +385,8 @@ def run(tier, seed):
         'outcomes': dict(agg.outcomes),
         'samples': [{'chart': k, 'transitions': [(x['source'], x['target'], x['event'], x['tguard'])
                                                  for x in CHARTS[k]()['transitions']]} for k in CHARTS],
-        'rule': 'BFS to the stated depth over {clock += 1|2|3, queue x|y|adv, execute_once} (ADV actions move '
-                'the clock inside a step); state = (configuration, entry/idle ages capped at %d, clock offset, '
+        'rule': 'BFS to the stated depth over {clock += 1|2|3, queue x|y|z|adv, queue with delay, execute_once} (ADV actions move '
+                'the clock inside a step and then send delayed events); state = (configuration, entry/idle ages capped at %d, clock offset, '
                 'pending events); every predicate value, time value and fired set compared with the '
                 'reference time model' % CAP,
     }
